@@ -79,7 +79,12 @@ def _case(rng):
                 v2['data'] = [None if x is None else rng.choice([x, -1, -2, x]) for x in v2['data']]
         if rng.random() < 0.2 and len(s2['vars']) > 1:
             s2['vars'].pop(rng.randrange(len(s2['vars'])))
-        return dict(kind=kind, op=op, f1=s1, f2=s2, coords=coords)
+        long = [d[0] for d in s2['dims'] if d[1] > 1]
+        if long and rng.random() < 0.25:
+            # the right operand is a one-step / one-layer file: numpy stretches it along that axis (masks included)
+            from . import c04
+            s2 = c04._slice_spec(s2, rng.choice(long), 0, 1)
+        return dict(kind=kind, op=op, f1=s1, f2=s2, coords=coords, early=rng.random() < 0.3)
     if kind == 'mask':
         for v in spec['vars']:
             if v['name'] not in coords:
@@ -95,9 +100,14 @@ def _case(rng):
             tv = rng.choice(cand)
             where = dict(dims=tv['dims'], bits=[rng.randint(0, 1) for _ in tv['data']],
                          bydims=rng.random() < 0.5)
+            if rng.random() < 0.35:
+                # the condition is itself a masked array (a comparison on a variable with missing cells): 2 = masked
+                # there, with False left in the buffer under the mask
+                where['bits'] = [2 if rng.random() < 0.3 else b for b in where['bits']]
         # the optional fill value of the new masked variables: cells that merely hold that value are not missing
         fillarg = rng.choice([None, None, None, 0, 2, -1])
-        return dict(kind=kind, spec=spec, preds=preds, where=where, coords=coords, maskcoords=rng.random() < 0.2, fillarg=fillarg)
+        return dict(kind=kind, spec=spec, preds=preds, where=where, coords=coords, maskcoords=rng.random() < 0.2, fillarg=fillarg,
+                    early=rng.random() < 0.3)
     # eval: variables of one shape
     noncoord = [v for v in spec['vars'] if v['name'] not in coords]
     if not noncoord:
@@ -214,6 +224,25 @@ def _flat(e):
     return ['bin', e[1]] + _flat(e[2]) + _flat(e[3])
 
 
+def _build(spec, coords, early=False):
+    """the file; early: the coordinate names are registered before the variables exist (setCoords(..., missing='ignore'),
+    'add in case used later'), as a reader that declares its coordinates first does"""
+    f = pfile.build(spec)
+    if not early:
+        f.setCoords(coords)
+        return f
+    import PseudoNetCDF as pnc
+    g = pnc.PseudoNetCDFFile()
+    g.setCoords(coords)
+    for dk, dv in f.dimensions.items():
+        g.copyDimension(dv, key=dk)
+    for vk, vv in f.variables.items():
+        g.copyVariable(vv, key=vk)
+    for ak in f.ncattrs():
+        setattr(g, ak, getattr(f, ak))
+    return g
+
+
 def impl(case):
     try:
         with lib.pnc_warnings():
@@ -242,19 +271,19 @@ def impl(case):
                             o = o.mask(**{st[1]: st[2]})
                 return dict(obs=pfile.observe(o), coords_after=list(o.getCoords()))
             if case['kind'] == 'binop':
-                f1, f2 = pfile.build(case['f1']), pfile.build(case['f2'])
-                f1.setCoords(case['coords'])
-                f2.setCoords(case['coords'])
+                f1, f2 = _build(case['f1'], case['coords'], case.get('early')), _build(case['f2'], case['coords'], case.get('early'))
                 with np.errstate(all='ignore'):
                     o = eval('f1 %s f2' % OPS[case['op']])
             elif case['kind'] == 'mask':
-                f = pfile.build(case['spec'])
-                f.setCoords(case['coords'])
+                f = _build(case['spec'], case['coords'], case.get('early'))
                 kw = {k: (float(Fraction(v)) if isinstance(v, str) else v) for k, v in case['preds'].items()}
                 w = case['where']
                 if w:
                     shape = [dict((d[0], d[1]) for d in case['spec']['dims'])[k] for k in w['dims']]
-                    arr = np.array(w['bits'], dtype=bool).reshape(shape)
+                    bits = np.array(w['bits']).reshape(shape)
+                    arr = (bits == 1)
+                    if (bits == 2).any():
+                        arr = np.ma.masked_array(arr, mask=(bits == 2))
                     kw['where'] = arr
                     if w['bydims']:
                         kw['dims'] = tuple(w['dims'])
